@@ -709,9 +709,9 @@ Proof.
   guard_inv H. inversion H; reflexivity.
 Qed.
 
-Lemma ss_add_assigner_allocs : forall c s a n i t s', ss_add_assigner c s a n i t = Some s' -> st_allocs s' = st_allocs s.
+Lemma ss_add_assigner_allocs : forall c s a n k i t s', ss_add_assigner c s a n k i t = Some s' -> st_allocs s' = st_allocs s.
 Proof.
-  unfold ss_add_assigner; intros c s a n i t s' H. guard_inv H. bind_as H x E. guard_inv H. bind_as H y Ey. guard_inv H.
+  unfold ss_add_assigner; intros c s a n k i t s' H. guard_inv H. bind_as H x E. guard_inv H. bind_as H y Ey. guard_inv H.
   inversion H; reflexivity.
 Qed.
 
